@@ -500,11 +500,11 @@ def model(ctx, box):
     out = os.path.join(ctx.scratch, 'c20_universe.json')
     for part in ('algebra', 'deriv', 'assemble'):
         ctx.model_must_hold('MC_C20', 'MC_C20.cfg', env={'MC_TIER': ctx.tier, 'MC_PART': part, 'MC_MUT': 'none', 'OUT_FILE': out},
-                            timeout=3000 if thorough else 600, workers=6, xmx='6g')
+                            timeout=3600 if thorough else 1500, workers=6, xmx='6g')
     rejected = {}
     for mut in ('dataij', 'rhssign'):
         r = ctx.tlc_model('MC_C20', 'MC_C20.cfg', env={'MC_TIER': 'quick', 'MC_PART': 'assemble', 'MC_MUT': mut, 'OUT_FILE': ''},
-                          timeout=600, workers=2, xmx='6g', label=f'seeded model deviation {mut} (violation expected)')
+                          timeout=1200, workers=2, xmx='6g', label=f'seeded model deviation {mut} (violation expected)')
         rejected[mut] = bool(r['violated'])
     ctx.notes['model_deviations_rejected'] = rejected
     box['universe'] = out
